@@ -41,8 +41,11 @@ theorem lv_renames (s : St) (k : Nat) : lv (s.renames k).1 = lv s := by
   | succ k ih =>
     unfold St.renames
     split
-    · exact (ih _).trans rfl
     · rfl
+    · simp only []
+      split
+      · exact (ih _).trans rfl
+      · rfl
 
 theorem lv_cycle (s : St) : lv s.cycle = lv s := by
   unfold St.cycle
@@ -339,6 +342,47 @@ theorem setBatch_coherent (ms : MSt) (j : Nat) (b : Option (List Nat)) (h : Cohe
   obtain ⟨y', hy', ey⟩ := key ms j y hy
   rw [ex, ey]; exact h x' hx' y' hy'
 
+theorem setFault_get (ms : MSt) (j : Nat) (b : Nat) (i : Nat) :
+    (setFault ms j b)[i]? = if i = j then (ms[i]?).map (fun s => { s with failAt := some b }) else ms[i]? := by
+  induction ms generalizing j i with
+  | nil => simp [setFault]
+  | cons s r ih =>
+    cases j with
+    | zero =>
+      cases i with
+      | zero => simp [setFault]
+      | succ i => simp [setFault]
+    | succ j =>
+      cases i with
+      | zero => simp [setFault]
+      | succ i => simp [setFault, ih]
+
+theorem setFault_coherent (ms : MSt) (j : Nat) (b : Nat) (h : Coherent ms) :
+    Coherent (setFault ms j b) := by
+  -- every component of the result has the logger variables of a component of `ms`
+  have key : ∀ (ms : MSt) (j : Nat), ∀ x ∈ setFault ms j b, ∃ y ∈ ms, lv x = lv y := by
+    intro ms
+    induction ms with
+    | nil => intro j x hx; simp [setFault] at hx
+    | cons s r ih =>
+      intro j x hx
+      cases j with
+      | zero =>
+        simp only [setFault, List.mem_cons] at hx
+        rcases hx with rfl | hx
+        · exact ⟨s, by simp, rfl⟩
+        · exact ⟨x, by simp [hx], rfl⟩
+      | succ j =>
+        simp only [setFault, List.mem_cons] at hx
+        rcases hx with rfl | hx
+        · exact ⟨x, by simp, rfl⟩
+        · obtain ⟨y, hy, e⟩ := ih j x hx
+          exact ⟨y, by simp [hy], e⟩
+  intro x hx y hy
+  obtain ⟨x', hx', ex⟩ := key ms j x hx
+  obtain ⟨y', hy', ey⟩ := key ms j y hy
+  rw [ex, ey]; exact h x' hx' y' hy'
+
 theorem cutAll_mem (a b : List St) (j : Nat) (ks : List Nat) (x : St) (hx : x ∈ cutAll a b j ks) :
     ∃ s s' k, s' ∈ b ∧ x = St.cut s s' k := by
   induction a generalizing b j with
@@ -391,6 +435,7 @@ theorem step_coherent (ms : MSt) (op : MOp) (h : Coherent ms) : Coherent (ms.ste
       obtain ⟨a1, a2, a3, a4, a5⟩ := lv_fields hxy
       exact lv_of_fields a1 (by show x.stamp + _ = y.stamp + _; rw [a2]) a3 a4 a5)
   | batch i b => exact setBatch_coherent ms i b h
+  | fault i n => exact setFault_coherent ms i n h
   | ctl c =>
     simp only [MSt.step]
     rw [MSt.send_eq_map ms h c]
@@ -443,6 +488,19 @@ theorem lockstep (ms : MSt) (h : List MOp) (hc : Coherent ms) (i : Nat) (s : St)
         have := ih _ hc' _ this
         simpa [proj, projOp, hj] using this
 
+    | fault j b =>
+      by_cases hj : j = i
+      · subst hj
+        have : (ms.step (.fault j b))[j]? = some (s.step (.fault b)) := by
+          simp only [MSt.step, setFault_get, if_true, hs, Option.map_some, St.step]
+        have := ih _ hc' _ this
+        simpa [proj, projOp, St.exec] using this
+      · have : (ms.step (.fault j b))[i]? = some s := by
+          simp only [MSt.step, setFault_get]
+          rw [if_neg (fun e => hj e.symm)]; exact hs
+        have := ih _ hc' _ this
+        simpa [proj, projOp, hj] using this
+
 theorem init_coherent (cfg : Cfg) (hs : List Nat) : Coherent (MSt.init cfg hs) := by
   intro x hx y hy
   simp only [MSt.init, List.mem_map] at hx hy
@@ -458,29 +516,31 @@ def mproto : Status → List MOp → Bool
   | _, .ctl .stop :: r => mproto .stopped r
   | _, .reboot :: r => mproto .stopped r
   | st, .die c _ :: r => (match c with | .run => st != .stopped | _ => true) && mproto .stopped r
+  | _, .fault _ _ :: _ => false
   | st, _ :: r => mproto st r
 
-theorem proto_proj (i : Nat) (st : Status) (h : List MOp) : proto st (proj i h) = mproto st h := by
+theorem proto_proj (i : Nat) (st : Status) (h : List MOp) (hm : mproto st h = true) :
+    proto st (proj i h) = true := by
   induction h generalizing st with
   | nil => rfl
   | cons op rest ih =>
     cases op with
-    | advance d => simp only [proj, List.filterMap_cons, projOp, proto, mproto]; exact ih st
-    | reboot => simp only [proj, List.filterMap_cons, projOp, proto, mproto]; exact ih _
+    | advance d => simp only [proj, List.filterMap_cons, projOp, proto, mproto] at hm ⊢; exact ih st hm
+    | reboot => simp only [proj, List.filterMap_cons, projOp, proto, mproto] at hm ⊢; exact ih _ hm
+    | fault j n => simp [mproto] at hm
     | die c ks =>
-      simp only [proj, List.filterMap_cons, projOp, proto, mproto]
-      rw [show proto Status.stopped (List.filterMap (projOp i) rest) = mproto .stopped rest from ih _]
-      cases c <;> rfl
+      simp only [proj, List.filterMap_cons, projOp, proto, mproto, Bool.and_eq_true] at hm ⊢
+      exact ⟨hm.1, ih _ hm.2⟩
     | batch j b =>
       by_cases hj : j = i
-      · simp only [proj, List.filterMap_cons, projOp, hj, if_true, proto, mproto]; exact ih st
-      · simp only [proj, List.filterMap_cons, projOp, hj, if_false, mproto]; exact ih st
+      · simp only [proj, List.filterMap_cons, projOp, hj, if_true, proto, mproto] at hm ⊢; exact ih st hm
+      · simp only [proj, List.filterMap_cons, projOp, hj, if_false, mproto] at hm ⊢; exact ih st hm
     | ctl c =>
       cases c with
-      | start => simp only [proj, List.filterMap_cons, projOp, proto, mproto]; exact ih _
-      | stop => simp only [proj, List.filterMap_cons, projOp, proto, mproto]; exact ih _
+      | start => simp only [proj, List.filterMap_cons, projOp, proto, mproto] at hm ⊢; exact ih _ hm
+      | stop => simp only [proj, List.filterMap_cons, projOp, proto, mproto] at hm ⊢; exact ih _ hm
       | run =>
-        simp only [proj, List.filterMap_cons, projOp, proto, mproto]
-        rw [show proto Status.running (List.filterMap (projOp i) rest) = mproto .running rest from ih _]
+        simp only [proj, List.filterMap_cons, projOp, proto, mproto, Bool.and_eq_true] at hm ⊢
+        exact ⟨hm.1, ih _ hm.2⟩
 
 end Ioflo.Rotate
